@@ -150,6 +150,45 @@ def _extract(job):
             pass
         except Exception as e:  # noqa
             obs.append(f"oblique point source raised {type(e).__name__}")
+    # the same grid far from the origin (UTM-like coordinates): a receiver in
+    # an outermost cell yields NaN however close it is to the inner node, one
+    # just inside the second cell yields a number - in metres, not relative
+    # to the size of the coordinates
+    org = np.array([5.0e5, 6.5e6, -3.0e3])
+    hb = [a*50.0 for a in hh]
+    gbig = emg3d.TensorMesh(hb, org)
+    eb = emg3d.Field(gbig, frequency=freq)
+    eb.field[:] = rng.standard_normal(eb.field.size)
+    nb = [gbig.nodes_x, gbig.nodes_y, gbig.nodes_z]
+    for d in range(3):
+        if len(nb[d]) < 5:
+            continue
+        mid = [(n_[1] + n_[-2])/2 for n_ in nb]
+        for side in (0, 1):
+            inner = nb[d][1] if side == 0 else nb[d][-2]
+            sgn = -1.0 if side == 0 else 1.0
+            for dist in (0.5, 5.0, 40.0):
+                if dist >= 0.9*(hb[d][0] if side == 0 else hb[d][-1]):
+                    continue
+                for inside, want_nan in ((sgn*dist, True), (-sgn*dist, False)):
+                    pt = list(mid)
+                    pt[d] = inner + inside
+                    for xtype in ('electric', 'magnetic'):
+                        if xtype == 'electric':
+                            got = fields.get_receiver(eb, (*pt, 20., 10.),
+                                                      'linear')
+                        else:
+                            mb = emg3d.Model(gbig, 1.0)
+                            hf = fields.get_magnetic_field(mb, eb)
+                            got = fields.get_receiver(hf, (*pt, 20., 10.),
+                                                      'linear')
+                        if bool(np.isnan(got)) != want_nan:
+                            obs.append(
+                                f"UTM-like grid, {xtype} receiver {dist} m "
+                                f"{'outside' if want_nan else 'inside'} the "
+                                f"{'second' if side == 0 else 'second-last'}"
+                                f" node in direction {d}: "
+                                f"{'a number' if want_nan else 'NaN'}")
     if obs:
         out[0]["obs"] = False
         out[0]["notes"] = out[0]["notes"] + obs
